@@ -3,9 +3,9 @@
 //! requests:
 //!   m <hex>            membership / classification / as_base of one string
 //!   r <hexbase> <hexref>   resolution of an accepted reference against an accepted base
-use crate::rxgen;
-use crate::util::*;
-use crate::GenCtx;
+use vhcore::rxgen;
+use vhcore::util::*;
+use vhcore::GenCtx;
 use sophia_iri::{Iri, IriRef};
 
 const PUNCT: &[char] = &[
@@ -177,4 +177,8 @@ pub fn exec(line: &str) -> String {
         }
         _ => "bad-op".into(),
     }
+}
+
+fn main() {
+    vhcore::main_loop(generate, exec);
 }
